@@ -607,7 +607,13 @@ func (interp *Interpreter) EvalWithContext(ctx context.Context, src string) (ref
 // invocation of EvalWithContext.
 func (interp *Interpreter) stop() {
 	atomic.AddUint64(&interp.id, 1)
+	interp.mutex.Lock()
 	close(interp.done)
+	// The closed channel belongs to the cancelled evaluation only: frames of
+	// that evaluation hold their own copy. Later evaluations without a context
+	// must not see it, or their channel operations would be cancelled at once.
+	interp.done = nil
+	interp.mutex.Unlock()
 }
 
 func (interp *Interpreter) runid() uint64 { return atomic.LoadUint64(&interp.id) }
